@@ -57,9 +57,9 @@ Theorem C02_model_meets_spec : forall h L vs src k, is_block_name h = true -> Sp
 Proof. exact model_meets_spec. Qed.
 Print Assumptions C02_model_meets_spec.
 
-(* satisfiable: a 40000-byte PUT over a corrupt copy, killed before the rename (temp file complete,
-   block file still the corrupt one), and run to completion *)
-Theorem C02_example_crash : crash [D false true (Some (KCorrupt 5)) None] 40000 Complete 7 = [D false true (Some (KCorrupt 5)) (Some 40000)].
+(* satisfiable: a 40000-byte PUT over a corrupt copy, killed at the flock of the old file (temp file
+   complete, block file still the corrupt one), and run to completion *)
+Theorem C02_example_crash : crash [D false true (Some (KCorrupt 5)) None] 40000 Complete 10 = [D false true (Some (KCorrupt 5)) (Some 40000)].
 Proof. exact ex_crash_mid. Qed.
 Print Assumptions C02_example_crash.
 Theorem C02_example_finish : finish [D false true (Some (KCorrupt 5)) None] 40000 Complete = [D false true (Some KGood) None].
